@@ -22,6 +22,15 @@ let op_auth a = match a with
      | _ -> "panic")
   | _ -> "bad-args"
 
+(* two handshakes on one Ntlm object: the model's read_challenge_message is a function of the object as created and of
+   the CHALLENGE (nothing of one handshake survives into the next) *)
+let op_auth2 a = match a with
+  | [mode; dom; user; secret; upper; n1; k1; c1; n2; k2; c2] ->
+    let r1 = op_auth [mode; dom; user; secret; upper; n1; k1; c1] in
+    let r2 = op_auth [mode; dom; user; secret; upper; n2; k2; c2] in
+    r1 ^ " / " ^ r2
+  | _ -> "bad-args"
+
 let op_prim op a = match op, a with
   | "negotiate", _ -> out (create_negotiate_message (prof ()))
   | "unicode", [s] -> out (Ok (unicode (cps s)))
@@ -45,4 +54,5 @@ let op_prim op a = match op, a with
 
 let () = main_loop (fun op args -> match op with
   | "auth" -> op_auth args
+  | "auth2" -> op_auth2 args
   | _ -> op_prim op args)
